@@ -40,6 +40,10 @@ def jobs(tier, seed):
             out.append({'name': 'equal_interval-%dx%d-k%d' % (shp[0], shp[1], k), 'kind': 'equal_interval', 'shape': list(shp), 'k': k})
             out.append({'name': 'quantile-%dx%d-k%d' % (shp[0], shp[1], k), 'kind': 'quantile', 'shape': list(shp), 'k': k})
     out.append({'name': 'equal_interval-inf-cells', 'kind': 'equal_interval', 'shape': [1, 3], 'k': 2, 'inf': True})
+    # float rounding of min + i*width is invisible to the exact-real model (np.arange may overshoot by one element, the last cut may round below the maximum):
+    # a concrete sweep over small integer ranges, where those roundings do occur, executes the same code with real float arithmetic
+    for k in (2, 3, 5, 7):
+        out.append({'name': 'equal_interval-float-landmarks-k%d' % k, 'kind': 'ei-landmarks', 'k': k})
     for shp in ([(1, 3), (2, 2)] if tier == 'quick' else [(1, 3), (2, 2), (1, 5)]):
         for k in ((2,) if tier == 'quick' else (2, 3)):
             out.append({'name': 'natural_breaks-%dx%d-k%d' % (shp[0], shp[1], k), 'kind': 'natural_breaks', 'shape': list(shp), 'k': k,
@@ -57,6 +61,8 @@ def body(ctx, job):
         exc = ctx.raises(ctx.call, 'classify:reclassify', agg, [1.0, 2.0], [0, 1, 2])
         ctx.check('length-mismatch-raises', exc == 'ValueError')
         return
+    if kind == 'ei-landmarks':
+        return body_ei_landmarks(ctx, job)
     if kind == 'binary':
         return body_binary(ctx, job)
     return body_datadriven(ctx, job)
@@ -107,6 +113,23 @@ def body_binary(ctx, job):
         else:
             ref = ite(member, 1.0, ite(isfinite(v), 0.0, math.nan))
             ctx.check('binary', same(out[c], ref), info=lambda m, c=c: {'value': ctx.ev(m, d[c]), 'listed': [ctx.ev(m, x) for x in listed], 'got': ctx.ev(m, out[c])})
+
+
+def body_ei_landmarks(ctx, job):
+    k = job['k']
+    for lo in range(-3, 9):
+        for span in range(1, 13):
+            hi = lo + span
+            cellsv = [float(lo), lo + span / 2.0, float(hi), lo + span / float(k), float('nan'), hi - span / float(k)]
+            d = symnp.asarray([cellsv], 'float64').copy()
+            res = ctx.call('classify:equal_interval', raster(d, attrs={'res': 1}, name='a'), k)
+            out = [v if not sc.is_sym(v) else sc.as_const(v) for v in vals(res).ravel().flat_values()]
+            info = {'values': cellsv, 'k': k, 'classes': [None if (o is None or o != o) else o for o in out]}
+            ctx.check('max-gets-top-class', out[2] == k - 1, info=info)
+            ctx.check('min-gets-class-0', out[0] == 0, info=info)
+            ctx.check('non-finite-cells-are-nan', out[4] != out[4], info=info)
+            ctx.check('finite-cells-get-integer-class-in-range', all(o in range(k) for i, o in enumerate(out) if i != 4), info=info)
+            ctx.check('order-preserving', all(out[i] <= out[j] for i in range(6) for j in range(6) if i != 4 and j != 4 and cellsv[i] <= cellsv[j]), info=info)
 
 
 def body_datadriven(ctx, job):
